@@ -68,7 +68,10 @@ impl<'mir> MirCompilerPass<'_> for InterfaceVerifier<'mir> {
                                                 args_array_in = true;
                                             };
                                             if let Type::Struct(_) | Type::Primitive(_) = t {
-                                                if let Type::Struct(Struct::Big(s)) = t {
+                                                if let Type::Struct(
+                                                    Struct::Big(s) | Struct::Small(s),
+                                                ) = t
+                                                {
                                                     if s.contains_interfaces() {
                                                         idlc_errors::unrecoverable!(
                                                             "Struct with Object inside cannot be used as an array",
